@@ -32,6 +32,7 @@ func checkC03(r *Report, p *Program) {
 	// objects listed for a declared child type come from an informer of exactly that resource and version
 	keyCompleteness(r, p, "R03.9", "informer.resourceKey")
 	cachesSyncedBeforeWorkers(r, p, "R03.10")
+	objectMapContracts(r, p, "R03.11")
 	// which children are claimed (and so shown to the hook) is decided by makeSelector: generated ⇒ controller-uid only (shared with C04)
 	r04_4(r, p)
 }
